@@ -26,7 +26,7 @@ from sim.faultsim import values_from_x
 PROP = "C10"
 NAME = "evalsim"
 RULE = (
-    "evalsim: one run = generated scheme + 8-40 ops (EVAL/REPEAT/RETURN/EVAL_FAULT/RETRY/THREADS/RESTART/OPTIMIZE); "
+    "evalsim: one run = generated scheme + 8-40 ops (EVAL/REPEAT/RETURN/EVAL_FAULT/RETRY/THREADS/SIDE_OPTIMIZER/RESTART/OPTIMIZE); "
     "distinct = digest of (scheme feature vector, op-kind sequence, fault sites); non-trivial = at least one injected fault "
     "fired AND at least one purity oracle was evaluated after it"
 )
@@ -80,6 +80,9 @@ def generate(rng: random.Random, tier: str) -> dict:
                 ops.append({"op": "RETRY"})  # the failed point is evaluated again, now without the fault
         elif r < fault_rate + 0.08:
             ops.append({"op": "THREADS", "t": rng.choice(THREADS)})
+        elif r < fault_rate + 0.11:
+            # somebody else constructs (and maybe evaluates) another optimizer for the same scheme in between
+            ops.append({"op": "SIDE_OPTIMIZER", "evaluate": rng.random() < 0.5, "keep": rng.random() < 0.5})
         elif r < fault_rate + 0.13:
             ops.append({"op": "RESTART"})
         elif r < fault_rate + 0.18:
@@ -111,6 +114,7 @@ class Run:
         self.ref_table: dict = {}  # x bytes -> reference penalty | exception name
         self.eval_xs: list = []  # x of every EVAL op (for RETURN)
         self.last_x = None
+        self.kept: list = []
         self.requested_threads = 16
         self.faulted_x = None
         self.fault_pending = False
@@ -183,6 +187,13 @@ class Run:
 
     # ------------------------------------------------------------------
     def check_inputs(self, tag):
+        # a read-only use of the caller's own parameters (array export re-evaluates expressions) must not reveal
+        # anything either: the caller's values are consistent, so nothing may move
+        try:
+            self.scheme.parameters.get_label_value_and_bounds_arrays()
+        except Exception as e:  # noqa: BLE001
+            self.rec.violate("C10/inputs-changed", "inputs", f"after {tag}: the caller's parameters cannot be exported any more: {e!r}")
+            return False
         diffs = S.diff_snapshot(self.snap, S.snapshot_scheme(self.scheme))
         if diffs:
             self.rec.violate("C10/inputs-changed", "inputs", f"after {tag}: {diffs[:4]}")
@@ -319,6 +330,27 @@ class Run:
         self.last_x = np.array(x, dtype=float, copy=True)
         return pen
 
+    def side_optimizer(self, op):
+        """Another Optimizer on the caller's scheme, built while the first one is in the middle of its history."""
+        from glotaran.optimization.optimizer import Optimizer
+
+        saved = (self.seams.in_ls, self.seams.on_group_calculate)
+        self.seams.in_ls = False  # its evaluations are not part of the simulated optimiser's schedule
+        try:
+            with warnings.catch_warnings():
+                warnings.simplefilter("ignore")
+                other = Optimizer(self.scheme, verbose=False, raise_exception=True)
+                if op.get("evaluate"):
+                    other.calculate_penalty()
+            if op.get("keep"):
+                self.kept.append(other)
+            self.rec.event(op="SIDE_OPTIMIZER", evaluate=bool(op.get("evaluate")))
+            self.rec.probe("side_optimizer_constructed")
+        except Exception as e:  # noqa: BLE001
+            self.rec.event(op="SIDE_OPTIMIZER", outcome=type(e).__name__)
+        finally:
+            self.seams.in_ls, self.seams.on_group_calculate = saved
+
     def expression_probe(self, parameters):
         """C12 in-run probe: the model must be evaluated with mutually consistent parameter values."""
         from sim import paramsim
@@ -412,6 +444,9 @@ class Run:
                     x = run.faulted_x
                     pen = run.evaluate(fun, x, "RETRY")
                     rec.probe("retry_of_failed_point")
+                elif kind == "SIDE_OPTIMIZER":
+                    run.side_optimizer(op)
+                    continue
                 elif kind == "THREADS":
                     run.requested_threads = op["t"]
                     run.numba.set_num_threads(min(op["t"], run.numba.config.NUMBA_NUM_THREADS))
